@@ -241,6 +241,41 @@ func c09GenCallTree(args []string) {
 			})
 		}
 	}
+	// the guard of the node-limiting step:  if nodeCount := o.NodeCount; nodeCount OP LIT { ... }
+	guardOp := "?"
+	for _, f := range files {
+		for _, d := range f.Decls {
+			fd, ok := d.(*ast.FuncDecl)
+			if !ok || fd.Body == nil || fd.Name.Name != "newTrimmedGraph" {
+				continue
+			}
+			ast.Inspect(fd.Body, func(n ast.Node) bool {
+				is, ok := n.(*ast.IfStmt)
+				if !ok || is.Init == nil {
+					return true
+				}
+				as, ok := is.Init.(*ast.AssignStmt)
+				if !ok || len(as.Rhs) != 1 || !c09IsSel(as.Rhs[0], "NodeCount") {
+					return true
+				}
+				if b, ok := c09Unparen(is.Cond).(*ast.BinaryExpr); ok {
+					if id, ok := b.X.(*ast.Ident); ok && len(as.Lhs) == 1 && fmt.Sprint(as.Lhs[0]) == id.Name {
+						if lit, ok := b.Y.(*ast.BasicLit); ok {
+							if guardOp != "?" {
+								guardOp = "ambiguous"
+							} else {
+								guardOp = b.Op.String() + " " + lit.Value
+							}
+						}
+					}
+				}
+				return true
+			})
+		}
+	}
+	if guardOp == "?" || guardOp == "ambiguous" {
+		s.fail("node-limiting guard of newTrimmedGraph not recognised (%s)", guardOp)
+	}
 	if len(build) != 1 {
 		s.fail("expected exactly one graph.Options{CallTree: ...} site, found %d", len(build))
 	}
@@ -263,6 +298,8 @@ func c09GenCallTree(args []string) {
 		sb.WriteString("\n  (" + c09CoqStr(st.pos) + ", " + c09CoqStrList(st.formats) + ")")
 	}
 	sb.WriteString("].\n\n")
+	sb.WriteString("(* the test newTrimmedGraph applies to the node count before it calls SelectTopNodes / SelectTopNodePtrs *)\n")
+	sb.WriteString("Definition node_limit_guard : string := " + c09CoqStr(guardOp) + ".\n\n")
 	ok := "true"
 	if len(s.notes) > 0 {
 		ok = "false"
